@@ -58,6 +58,12 @@ class VUnit:
         text = re.sub(r'^\s*///?.*\n', '', text, flags=re.M)
         for a, b in subst:
             text = text.replace(a, b)
+        if kind == 'struct':
+            # visibility is dropped by the extractor; make everything uniformly visible to the spec library
+            text = re.sub(r'^(\s*)struct ', r'\1pub struct ', text, count=1, flags=re.M)
+            text = re.sub(r'^(\s+)([a-z_][A-Za-z0-9_]*\s*:)', r'\1pub \2', text, flags=re.M)
+        elif kind == 'enum':
+            text = re.sub(r'^(\s*)enum ', r'\1pub enum ', text, count=1, flags=re.M)
         text = prefix + text
         self.items.append(it)
         self.parts.append(('item', text, text, {'item': it}))
